@@ -22,10 +22,15 @@ KEYS = {
                    ("SliderMultiplier", "f"), ("SliderTickRate", "f")],
 }
 BOOKMARKS = ["1,2,3", "", "1", "1,,2", "1, 2", "x,5,2147483648,-7,+3", "-2147483648", "5 // c", "1,2:3"]
-FORMS = ["{k}:{v}", "{k}: {v}", " {k} : {v} ", "{k}:{v} // c", "{k}:{v}:extra"]
+FORMS = ["{k}:{v}", "{k}: {v}", " {k} : {v} ", "{k}:{v} // c", "{k}:{v}:extra",
+         # "the trimmed text": Rust's str::trim removes every Unicode White_Space character, not only the ASCII ones - ideographic
+         # space, no-break space, vertical tab, NEL, em space around the key and in front of the value (seed C11-k)
+         "{k}:\u3000{v}", "{k}:\u00a0{v}", "{k}:\x0b{v}", "{k}\u3000: {v}", "\u2003{k}\u00a0:\u0085{v}", "{k}:\u2028{v}\u2029"]
 ODD_LINES = ["", "NoColon", ":", ":v", "Unknown: 1", "title: x", "Title", "Title:", "//Title: x", " // c", "Title : a : b"]
 
 EVENT_LINES = [
+    # file-name fields made of quote characters only / one-sided quotes (seed C01-k: slicing between the quotes)
+    '0,0,"', '0,0,""', '0,0,"""', 'Video,0,"', '4,0,0,"', '0,0,"a', '0,0,a"', '1,0,"', 'Sprite,a,b,"', '0,0," "',
     '0,0,"bg.jpg",0,0', 'Background,0,bg2.png', '0,0,"C:\\\\dir\\\\bg.jpg"', '0,0,', '0,0', '0', '',
     'Video,0,"v.MP4"', '1,0,vid.avi', '1,0,pic.png', '1,0,ab', '1,0,abc', '1,0,"x.Mp4"', '1,0,x.m4v', '1,0,ビデオ.mp4',
     '1,0,é', '1,0,aé', '1,0,ビ', '1,0,x.mpg // c', '1,0,"a.flv', 'Video,0,file.wmvx',
@@ -43,6 +48,9 @@ EVENT_LINES = [
 COLOR_LINES = [
     "Combo1 : 1,2,3", "Combo2: 255,255,255,0", "Combo1: 256,0,0", "Combo: 1,2", "Combo9: 1,2,3,4,5", "SliderBorder: 1,2,3",
     "SliderBorder: 4,5,6", "SliderTrackOverride : 0,+5, 7 ", ": 1,2,3", "abc", "Combo1: -1,2,3", "Name: 1 ,2, 3 // c",
+    # a custom colour whose name looks like a section header (indented, so it is a record; the encoder writes the name at the
+    # start of a line: seed C04-l), names with brackets and colons
+    " [Events]: 1,2,3", " [General] : 4,5,6", "\t[HitObjects]: 7,8,9", " [Colours]x: 1,1,1", " x[Events]: 2,2,2", " [Nope]: 3,3,3",
     "ComboX:1,2,3", "combo1: 1,2,3", "Combo1: 1,2,3,", "Combo1: 1,2,3,x", "Combo1: 1,,3", "Other: 9,9,9", "Other : 8,8,8,8",
     "Combo3:001,002,003", "A:1,2,3:4", "Combo4: 1.0,2,3", "", "Combo5: 1,2,3 //", "  Spaced Name  : 7,7,7",
 ]
